@@ -259,7 +259,7 @@ func specSizeOK(size int, lower int, upper int) bool {
 //@   ensures true
 
 //@ func Parse
-//@   property C06 C19 C11 C04 C08
+//@   property C06 C19 C11 C04 C08 C15
 //@   owns sml.parser, sml.lexer, sml.token, sml.parseError, map[string]bool
 //@   ensures len(errors) > 0 ==> len(messages) == 0
 //@   ensures fresh(errors) && fresh(warnings)
@@ -268,6 +268,7 @@ func specSizeOK(size int, lower int, upper int) bool {
 //@   rac_ensures racPrintedFormsReparse()
 //@   rac_ensures racLoneEllipsisKeepsName()
 //@   rac_ensures racLayoutInvariant()
+//@   rac_ensures racDeclaredSizesEnforced()
 //@   rac_ensures racConcatIndependent()
 //@   loop 1
 //@     invariant fresh(p) && fresh(p.messages)
@@ -797,4 +798,65 @@ func racConcatIndependent() bool {
 		fmt.Println("GOVC-COUNT racConcatIndependent concatenations compared:", n)
 	})
 	return racConcatOK
+}
+
+// racDeclaredSizesEnforced (C15, bounded): for every item type, every form of size declaration with bounds 0..3 (including
+// inverted ranges, which nothing satisfies) and every element count 0..4, the text parses without errors iff the count lies
+// within the declared bounds.
+var (
+	racSizesOnce sync.Once
+	racSizesOK   bool
+)
+
+func racDeclaredSizesEnforced() bool {
+	racSizesOnce.Do(func() {
+		racSizesOK = true
+		elem := map[string]string{"L": "<U1 1>", "B": "0x01", "BOOLEAN": "T", "F4": "1.5", "F8": "-2", "I1": "1", "I2": "-1", "I4": "7", "I8": "0", "U1": "1", "U2": "2", "U4": "3", "U8": "4"}
+		types := []string{"L", "B", "BOOLEAN", "A", "F4", "F8", "I1", "I2", "I4", "I8", "U1", "U2", "U4", "U8"}
+		n := 0
+		for _, typ := range types {
+			for lo := -1; lo <= 3; lo++ { // -1: bound absent
+				for hi := -1; hi <= 3; hi++ {
+					var decls []string
+					var lower, upper int
+					switch {
+					case lo == -1 && hi == -1:
+						continue
+					case lo == -1:
+						decls, lower, upper = []string{fmt.Sprintf("[..%d]", hi), fmt.Sprintf("[ .. %d ]", hi)}, 0, hi
+					case hi == -1:
+						decls, lower, upper = []string{fmt.Sprintf("[%d..]", lo)}, lo, -1
+					default:
+						decls, lower, upper = []string{fmt.Sprintf("[%d..%d]", lo, hi)}, lo, hi
+						if lo == hi {
+							decls = append(decls, fmt.Sprintf("[%d]", lo))
+						}
+					}
+					for _, decl := range decls {
+						for count := 0; count <= 4; count++ {
+							var body string
+							if typ == "A" {
+								if count > 0 {
+									body = " \"" + strings.Repeat("x", count) + "\""
+								}
+							} else {
+								body = strings.Repeat(" "+elem[typ], count)
+							}
+							text := "S1F1 H->E m\n<" + typ + decl + body + ">\n."
+							ok := lower <= count && (upper == -1 || count <= upper)
+							r := racParse(text)
+							n++
+							if (len(r.errs) == 0) != ok {
+								racSizesOK = false
+								fmt.Printf("GOVC-NOTE racDeclaredSizesEnforced: %q has %d elements, declared bounds [%d, %d]: errors %v\n", text, count, lower, upper, r.errs)
+								return
+							}
+						}
+					}
+				}
+			}
+		}
+		fmt.Println("GOVC-COUNT racDeclaredSizesEnforced texts parsed:", n)
+	})
+	return racSizesOK
 }
